@@ -42,29 +42,44 @@ def ppObserved (kind : String) (id a b : Int) : Option Model.PartProd.Action :=
   | "wg.done.fin" => some .finDone
   | _ => none
 
-/-- validate one event against the partition-producer model; returns the new table or a rejection -/
+/-- key under which the alternative reaction of a partition is kept (see `ppCheck`) -/
+def altKey (p : Int) : Int := p + 1000000007
+
+def sameAct (x act : Model.PartProd.Action) : Bool :=
+  match x, act with
+  | .emit i l _, .emit j m _ => i == j && l == m      -- the fin flag is not carried by pp.fwd events
+  | _, _ => x == act
+
+/-- validate one event against the partition-producer model; returns the new table or a rejection.
+    A token of a new, higher level has two possible reactions (`Model.PartProd.recvG`): the leader look-up of
+    `updateLeaderIfBrokerProducerIsNil` fails and the token is failed on the spot, or the level is opened (`recv`).
+    Which one applies is visible only in the first event that follows, so both are kept until then. -/
 def ppCheck (d : List (Int × Model.PartProd.St × List Model.PartProd.Action)) (kind : String) (id a b p : Int) :
     Except String (List (Int × Model.PartProd.St × List Model.PartProd.Action)) :=
   if kind = "pp.recv" then
     let (st, q) := getPP d p
     if ¬ q.isEmpty then .error s!"pp.recv on partition {p} while the model still expects {(repr q).pretty 1000000}"
     else
-      let r := Model.PartProd.recv st { id := id, retries := a.toNat, fin := (b.toNat / 2) % 2 = 1 }
-      .ok (setPP d p r)
+      let tok : Model.PartProd.Tok := { id := id, retries := a.toNat, fin := (b.toNat / 2) % 2 = 1 }
+      let r := Model.PartProd.recvG st tok true
+      let alt := if tok.retries > st.hwm then Model.PartProd.recvG st tok false else ({}, [])
+      .ok (setPP (setPP d p r) (altKey p) alt)
   else
     let part := if kind = "wg.add.fin" then a else p
     match ppObserved kind id a b with
     | none => .ok d
     | some act =>
       let (st, q) := getPP d part
+      let (stA, qA) := getPP d (altKey part)
       match q with
       | [] => .error s!"partition producer {part}: unexpected {(repr act).pretty 1000000}"
       | x :: rest =>
-        let same : Bool := match x, act with
-          | .emit i l _, .emit j m _ => i == j && l == m      -- the fin flag is not carried by pp.fwd events
-          | _, _ => x == act
-        if same then .ok (setPP d part (st, rest))
-        else .error s!"partition producer {part}: expected {(repr x).pretty 1000000}, observed {(repr act).pretty 1000000}"
+        if sameAct x act then .ok (setPP (setPP d part (st, rest)) (altKey part) ({}, []))
+        else match qA with
+          | y :: restA =>
+            if sameAct y act then .ok (setPP (setPP d part (stA, restA)) (altKey part) ({}, []))
+            else .error s!"partition producer {part}: expected {(repr x).pretty 1000000}, observed {(repr act).pretty 1000000}"
+          | [] => .error s!"partition producer {part}: expected {(repr x).pretty 1000000}, observed {(repr act).pretty 1000000}"
 
 /-! ### broker workers (Model.BrokerProd)
 
